@@ -14,6 +14,7 @@ import (
 
 	"verifsim/core"
 	"verifsim/stagea"
+	"verifsim/stageb"
 )
 
 func main() {
@@ -55,6 +56,8 @@ func main() {
 			code, err = stagea.ReplayC13(*replay, rep)
 		case "C12":
 			code, err = stagea.ReplayC12(*replay, rep)
+		case "C09", "C11", "C18":
+			code, err = stageb.ReplayB(id, *replay, rep)
 		default:
 			fmt.Fprintf(os.Stderr, "replay not supported for %s\n", id)
 		}
@@ -71,6 +74,12 @@ func main() {
 		ev, err = stagea.CheckC13(*tier, seed, rep)
 	case "C12":
 		ev, err = stagea.CheckC12(*tier, seed, rep)
+	case "C09":
+		ev, err = stageb.CheckC09(*tier, seed, rep)
+	case "C11":
+		ev, err = stageb.CheckC11(*tier, seed, rep)
+	case "C18":
+		ev, err = stageb.CheckC18(*tier, seed, rep)
 	default:
 		fmt.Fprintf(os.Stderr, "unknown check %q\n", id)
 		os.Exit(2)
